@@ -24,7 +24,15 @@ func runC14(c *Ctx) {
 		return
 	}
 	R.Analysed(fname(read))
-	nOb, nOK := c.panicFreedom("C14.R1", []*ssa.Function{read, c.P.Func("wire", "NewBinaryColumnReader"), c.P.Func("wire", "NewScanner")})
+	pfns := []*ssa.Function{read, c.P.Func("wire", "NewBinaryColumnReader"), c.P.Func("wire", "NewScanner")}
+	for _, fn := range c.P.ScopeFuncs() { // helpers Read may be split into
+		if fn != read && fn.Parent() == nil && fn.Signature.Recv() != nil {
+			if n := core.NamedOf(fn.Signature.Recv().Type()); n != nil && n.Obj().Name() == "BinaryCopyReader" && n.Obj().Pkg().Path() == pkWire {
+				pfns = append(pfns, fn)
+			}
+		}
+	}
+	nOb, nOK := c.panicFreedom("C14.R1", pfns)
 	R.Count("bounds_obligations", nOb)
 	R.Count("bounds_discharged", nOK)
 	R.Floor("C14.R1", "bounds obligations in the binary COPY reader", nOb, 5)
@@ -43,9 +51,56 @@ func runC14(c *Ctx) {
 			}
 		}
 	}
+	// the row may be assembled by a method that Read hands the count to and whose results it returns unchanged
+	asm := read              // the function that allocates and fills the row
+	asmFields := fields      // the count in asm's terms
+	var gate ssa.Instruction // what the count guards must dominate in Read
+	if row == nil && fields != nil {
+		for _, ci := range core.Calls(read) {
+			call, isCall := ci.(*ssa.Call)
+			if !isCall {
+				continue
+			}
+			h := core.StaticCallee(call)
+			if h == nil || h == read || !c.P.InPkg(h, "wire") || h.Blocks == nil {
+				continue
+			}
+			for i, a := range call.Call.Args {
+				if core.StripConv(a) != fields || i >= len(h.Params) {
+					continue
+				}
+				for _, b := range h.Blocks {
+					for _, in := range b.Instrs {
+						if ms, ok := in.(*ssa.MakeSlice); ok && core.StripConv(ms.Len) == ssa.Value(h.Params[i]) {
+							tail := true
+							for _, r := range returns(read) {
+								if !core.InstrDominates(call, r) {
+									continue
+								}
+								for j, res := range r.Results {
+									if ex, isEx := forwardLoad(res).(*ssa.Extract); !isEx || ex.Tuple != ssa.Value(call) || ex.Index != j {
+										tail = false
+									}
+								}
+							}
+							if tail {
+								row, asm, asmFields, gate = ms, h, h.Params[i], call
+							}
+						}
+					}
+				}
+			}
+		}
+		if asm != read {
+			R.Analysed(fname(asm))
+		}
+	}
 	if fields == nil || row == nil {
-		R.Fail("C14.R1", "Read:shape", c.atFn(read), "Read decodes a field count and allocates a row of that many values", "GetUint16 count or make([]any, count) not found")
+		R.Fail("C14.R1", "Read:shape", c.atFn(read), "Read decodes a field count and allocates a row of that many values", "GetUint16 count or make([]any, count) not found (in Read or in a method it hands the count to)")
 		return
+	}
+	if gate == nil {
+		gate = row
 	}
 	// field count == len(scanners) dominates the row allocation
 	eq := false
@@ -72,7 +127,7 @@ func runC14(c *Ctx) {
 				idx = 1
 			}
 			for _, u := range core.Referrers(cmp) {
-				if iff, ok := u.(*ssa.If); ok && core.EdgeDominates(iff.Block(), idx, row.Block()) {
+				if iff, ok := u.(*ssa.If); ok && core.EdgeDominates(iff.Block(), idx, gate.Block()) {
 					eq = true
 				}
 			}
@@ -83,7 +138,7 @@ func runC14(c *Ctx) {
 	// ---------- R2: trailer
 	trailerIs := constEqEdges(fields, 0xFFFF, true)
 	trailerNot := constEqEdges(fields, 0xFFFF, false)
-	R.Check(len(trailerIs) > 0 && anyDominates(trailerNot, row.Block()), "C14.R2", "Read:trailer-recognised", c.at(row), "the end-of-data trailer (field count -1) is recognised by equality before the count is used as a row size", "the fields != 0xFFFF edge dominates the row allocation", "the field count is used without the 0xFFFF trailer having been tested: the standard trailer is misread as a 65535-field row")
+	R.Check(len(trailerIs) > 0 && anyDominates(trailerNot, gate.Block()), "C14.R2", "Read:trailer-recognised", c.at(row), "the end-of-data trailer (field count -1) is recognised by equality before the count is used as a row size", "the fields != 0xFFFF edge dominates the row allocation", "the field count is used without the 0xFFFF trailer having been tested: the standard trailer is misread as a 65535-field row")
 	cr := c.P.Method("wire", "CopyReader", "Read")
 	for _, e := range trailerIs {
 		reads := false
@@ -132,9 +187,16 @@ func runC14(c *Ctx) {
 		return false
 	}
 	nMid := 0
-	for _, r := range returns(read) {
-		if !anyDominates(trailerNot, r.Block()) {
+	midRets := returns(read)
+	if asm != read {
+		midRets = append(midRets, returns(asm)...)
+	}
+	for _, r := range midRets {
+		if r.Parent() == read && !anyDominates(trailerNot, r.Block()) {
 			continue
+		}
+		if r.Parent() == read && asm != read && core.InstrDominates(gate, r) {
+			continue // the assembling method's own returns are inspected instead
 		}
 		ev := errOperand(r)
 		if ev == nil || !fromStream(ev, 2) {
@@ -147,7 +209,7 @@ func runC14(c *Ctx) {
 	R.Count("in_row_stream_error_returns", nMid)
 
 	// ---------- R3: refill inside a row (open finding)
-	loops := core.Loops(read)
+	loops := core.Loops(asm)
 	refill := false
 	for _, l := range loops {
 		for b := range l.Body {
@@ -215,7 +277,7 @@ func runC14(c *Ctx) {
 			}
 			continues := loop.Body[b.Succs[0]] && !loop.Body[b.Succs[1]]
 			if cmp, ok := iff.Cond.(*ssa.BinOp); ok && continues && cmp.Op == token.LSS && isInduction(cmp.X) {
-				if core.StripConv(cmp.Y) == fields {
+				if core.StripConv(cmp.Y) == asmFields {
 					okBound = true
 				}
 				// len(scanners), which the equality guard (R1) makes the same number
@@ -227,7 +289,7 @@ func runC14(c *Ctx) {
 			}
 		}
 		R.Check(okBound, "C14.R5", "Read:loop-over-announced-fields", c.at(loop.Header.Instrs[0]), "the field loop runs once per announced field", "induction variable < field count", "the field loop's bound is not the announced field count")
-		for _, r := range returns(read) {
+		for _, r := range returns(asm) {
 			v := forwardLoad(r.Results[0])
 			if v != ssa.Value(row) {
 				continue
